@@ -143,10 +143,7 @@ func buildColumn(d Dialect, mc *Column, enums map[string]*schema.EnumType) *sche
 		adders = append(adders, func() { c.SetCollation(mc.Collation) })
 	}
 	if mc.Generated != nil {
-		typ := "VIRTUAL"
-		if mc.Generated.Stored {
-			typ = "STORED"
-		}
+		typ := generatedKind(d, mc.Generated)
 		adders = append(adders, func() { c.SetGeneratedExpr(&schema.GeneratedExpr{Expr: mc.Generated.Expr, Type: typ}) })
 	}
 	if mc.AutoInc {
@@ -279,8 +276,21 @@ func buildIndex(d Dialect, mi *Index, cols map[string]*schema.Column) *schema.In
 	if mi.NullsNotDist {
 		idx.AddAttrs(&postgres.IndexNullsDistinct{V: false})
 	}
-	if mi.PagesPerRange != 0 {
-		idx.AddAttrs(&postgres.IndexStorageParams{PagesPerRange: mi.PagesPerRange})
+	if mi.PagesPerRange != 0 || mi.AutoSummarize {
+		idx.AddAttrs(&postgres.IndexStorageParams{PagesPerRange: mi.PagesPerRange, AutoSummarize: mi.AutoSummarize})
 	}
 	return idx
+}
+
+// generatedKind is the spelling of the storage kind of a generated column in a DSL graph.
+func generatedKind(d Dialect, g *Generated) string {
+	switch {
+	case !g.Stored && g.Spelling == "empty":
+		return ""
+	case g.Stored && g.Spelling == "persistent" && d == MySQL:
+		return "PERSISTENT"
+	case g.Stored:
+		return "STORED"
+	}
+	return "VIRTUAL"
 }
